@@ -8,7 +8,8 @@ from runner import Case
 THEOREMS = ["C07.copy_fresh", "C07.sep_step", "C07.sep_run", "C07.no_alias_after_copy", "C07.clone_frame",
             "C07.prune_frame", "C07.get_subtree_frame", "C07.mixed_history_frame", "C07.mixed_history_after_copy",
             "C07.copyWorld_ok", "C07.no_alias_with_growth", "C07.mixed_growth_frame", "C07.growth_step_frame",
-            "C07Dag.dag_copy_fresh", "C07Dag.dag_no_alias_after_copy", "C07Dag.dag_no_alias_original_mutated"]
+            "C07Dag.dag_copy_fresh", "C07Dag.dag_no_alias_after_copy", "C07Dag.dag_no_alias_original_mutated",
+            "C07Dag.dag_mixed_history"]
 PROOF_IMPORTS = ["BigtreeProofs.Properties.C07", "BigtreeProofs.Properties.C07Dag"]
 RULE = ("for every monitored function (7 exporters incl. tree_to_dot and tree_to_mermaid, print/hprint/yield/hyield_tree, Node.show/hshow, 6 iterators, "
         "inorder_iter on BinaryNode trees, 14 search functions, clone_tree, node.copy(), copy.deepcopy, get_subtree, prune_tree, get_tree_diff on either argument, "
@@ -967,7 +968,9 @@ LEVEL_TEXT = ("partial: machine-checked (Lean 4) on the pointer-level store mode
               "duplicate's parents/children/name are the duplicates of the original's in the same order, no edge joins old and "
               "new nodes (dag_copy_fresh); after ANY history of parents/children assignments, >>, <<, del children, del node[name] "
               "(any arguments, hook faults, accepted or refused) that mentions only duplicates the edges among the old nodes are "
-              "exactly the original's, and vice versa (dag_no_alias_after_copy, dag_no_alias_original_mutated; constructor calls "
+              "exactly the original's, and vice versa (dag_no_alias_after_copy, dag_no_alias_original_mutated), and for calls on both "
+              "sides interleaved the old nodes end up with what the calls on the originals ALONE make of the original graph "
+              "(dag_mixed_history; constructor calls "
               "excluded); the mirror is tied to the real DAGNode.copy by the C10 check (copy=<v> cases: one copy per weakly connected "
               "component of the final store of a history, cell by cell). That the pure readers (exporters, "
               "printers, iterators, searches, get_tree_diff, the source side of copy_*_from_tree_to_tree) do not mutate is NOT proved: "
